@@ -37,7 +37,7 @@ ASSUMPTIONS = [
     "exceptions that stay inside background tasks are counted in the evidence but are only a violation if they stop the connection or its neighbour from being served",
     "LMDB backend over /verif/shim; SQL = SQLite",
 ]
-MIN_NONTRIVIAL = {"quick": 1500, "thorough": 15000}
+MIN_NONTRIVIAL = {"quick": 1500, "thorough": 12000}
 REQUIRED_COUNTERS = ["probe.same_connection", "probe.neighbour_push", "probe.neighbour_req", "probe.neighbour_tag_req", "leak_checks", "frames", "stalled.publishes", "stalled.late_connections"]
 SHARD_TIMEOUT = {"quick": 600, "thorough": 3200}
 
@@ -465,12 +465,12 @@ async def run_stalled_reader(backend, counters, seed, nsubs=10, nevents=130):
 
 def plan(tier, seed):
     out = []
-    count = 450 if tier == "quick" else 4000
+    count = 450 if tier == "quick" else 6000
     for backend in ("sql", "lmdb"):
         for cfg in ("plain", "rate-limited", "auth"):
-            for i in range(2 if tier == "quick" else 5):
+            for i in range(2 if tier == "quick" else 10):
                 out.append({"backend": backend, "cfg": cfg, "case_seed": seed * 7919 + i, "count": count})
-        out.append({"backend": backend, "cfg": "stalled-reader", "mode": "stalled", "case_seed": seed * 7919, "n": 1 if tier == "quick" else 4})
+        out.append({"backend": backend, "cfg": "stalled-reader", "mode": "stalled", "case_seed": seed * 7919, "n": 1 if tier == "quick" else 8})
     return out
 
 
